@@ -243,3 +243,145 @@ theorem phase_ack {p : PS} (h : Inv p) (x n : Nat) (rest : List Msg)
       rw [sd]; simp
 
 end Penguin.Pair
+
+namespace Penguin.Pair
+open Penguin.Mux
+
+theorem noConnect_eff {x : Nat} {p : PS} {e' : EP} (s : Eff (· = x) p.a e') (hra : ¬ x ∈ p.a.rng)
+    (hn : noConnect (fl x (pathAB p))) : noConnect (fl x (p.ab ++ e'.outq)) := by
+  obtain ⟨em, he, hm⟩ := s.outq
+  rw [he, ← List.append_assoc, fl_append]
+  intro m hmm
+  rcases List.mem_append.mp hmm with h1 | h1
+  · exact hn m h1
+  · have hmem : m ∈ em := (List.mem_filter.mp h1).1
+    have hfl : isFl x m = true := (List.mem_filter.mp h1).2
+    have hflow : Msg.flow? m = some x := by simpa [isFl] using hfl
+    cases hc : m.isConnect with
+    | false => rfl
+    | true => exact absurd ((hm m hmem x hflow).2 hc) hra
+
+theorem resets_facts {x : Nat} {em : List Msg} (h : ResetsOf x em) :
+    (∀ m ∈ em, Msg.flow? m = some x ∧ m.isConnect = false) ∧ em.filterMap toItem = [] ∧ em.filterMap ackOf = [] := by
+  refine ⟨fun m hm => by rw [h m hm]; exact ⟨rfl, rfl⟩, ?_, ?_⟩
+  · induction em with
+    | nil => rfl
+    | cons m rest ih =>
+      rw [List.filterMap_cons, h m (by simp)]
+      exact ih (fun m' hm' => h m' (List.mem_cons_of_mem _ hm'))
+  · induction em with
+    | nil => rfl
+    | cons m rest ih =>
+      rw [List.filterMap_cons, h m (by simp)]
+      exact ih (fun m' hm' => h m' (List.mem_cons_of_mem _ hm'))
+
+/-- A frame for a linked flow: the link model's `deliver` / `deliverAck`, or the flow dies. -/
+theorem phase_linked_recv {p : PS} (h : Inv p) (f : Frame) (x : Nat) (hid : f.id = x)
+    (hflow : Msg.flow? (.frame f) = some x) (rest : List Msg) (hba : p.ba = .frame f :: rest)
+    (r : Linked x (ev x p.a p.ga) (ev x p.b p.gb) (fl x (pathAB p)) (fl x (pathBA p))) :
+    Phase x { p with a := (processFrame p.a f false).1, ba := rest } := by
+  obtain ⟨i, j, oA, oB, h1, h2, h3, h4, h5, h6, h7⟩ := r.body
+  obtain ⟨ho, hfid⟩ := objView_some h3
+  have hs : lookup p.a.flows x = some (.established i) := h1
+  have hhead : fl x (pathBA p) = [.frame f] ++ fl x (rest ++ p.b.outq) := by
+    show fl x (p.ba ++ p.b.outq) = _
+    rw [hba, List.cons_append, fl_cons]
+    simp [isFl, hflow]
+  have hnc : (Msg.frame f).isConnect = false := r.nba _ (by rw [hhead]; simp)
+  have s := processFrame_eff p.a f false h.sfA
+  rw [hid] at s
+  rcases processFrame_est p.a f false x i oA hs ho hid hnc h.runA.outClosed with hnone | ⟨o', em, u, hres, hcls⟩
+  · exact Or.inr (Or.inr (Or.inr (Or.inr (Or.inr (Or.inr ⟨fun hh => r.ra (s.rngSub.subset hh), r.rb,
+      noConnect_eff (p := p) s r.ra r.nab, fun m hm => r.nba m (by rw [hhead]; exact List.mem_append_right _ hm), Or.inl hnone⟩)))))
+  · obtain ⟨hem, hemI, hemA⟩ := resets_facts hres
+    have hsame : o'.fid = oA.fid ∧ o'.cap = oA.cap ∧ o'.threshold = oA.threshold := by
+      rcases hcls with ⟨n, _, ho', _⟩ | ⟨_, ho', _⟩ | ⟨d, _, ⟨_, _, _, ho', _⟩ | ⟨_, ho'⟩⟩ | ⟨_, ho'⟩
+      · subst ho'; unfold Obj.wake; split <;> exact ⟨rfl, rfl, rfl⟩
+      all_goals subst ho'; exact ⟨rfl, rfl, rfl⟩
+    refine phase_upd (g' := p.ga) (ba' := rest) (hd := [.frame f]) (h.phase x) u ho hfid (by rw [hsame.1, hfid]) hem
+      hhead rfl ?_ ?_ (fun hd0 => by cases hd0) ⟨hsame.2.1, hsame.2.2⟩ (by simp)
+    · -- `a` in the sending role: only an `Acknowledge` matters
+      intro oR fwd bwd rr eof l dr
+      rcases hcls with ⟨n, hf, ho', hem0⟩ | ⟨hf, ho', hem0⟩ | ⟨d, hf, ⟨_, _, _, ho', hem0⟩ | ⟨_, ho'⟩⟩ | ⟨hf, ho'⟩
+      · subst hf; subst ho'; subst hem0
+        rw [List.append_nil]
+        exact ⟨_, dr.deliverAck x n⟩
+      · subst hf; subst ho'; subst hem0
+        exact ⟨l, dr.congr rfl rfl rfl rfl rfl rfl rfl rfl (by simp [List.filterMap_cons]) (by simp [List.filterMap_cons]) rfl rfl rfl rfl⟩
+      · subst hf; subst ho'; subst hem0
+        exact ⟨l, dr.congr rfl rfl rfl rfl rfl rfl rfl rfl (by simp [List.filterMap_cons]) (by simp [List.filterMap_cons]) rfl rfl rfl rfl⟩
+      · subst hf; subst ho'
+        exact ⟨l, dr.congr rfl rfl rfl rfl rfl rfl rfl rfl (by rw [List.filterMap_append, hemI]; simp) (by simp [List.filterMap_cons]) rfl rfl rfl rfl⟩
+      · subst ho'
+        refine ⟨l, dr.congr rfl rfl rfl rfl rfl rfl rfl rfl (by rw [List.filterMap_append, hemI]; simp) ?_ rfl rfl rfl rfl⟩
+        rcases hf with ⟨bt, port, host, hf⟩ | ⟨port, host, d, hf⟩ <;> subst hf <;> simp [ackOf, List.filterMap_cons]
+    · -- `a` in the receiving role: `Push` and `Finish` matter
+      intro _ oS fwd bwd w l dr
+      rcases hcls with ⟨n, hf, ho', hem0⟩ | ⟨hf, ho', hem0⟩ | ⟨d, hf, ⟨_, _, _, ho', hem0⟩ | ⟨hnot, ho'⟩⟩ | ⟨hf, ho'⟩
+      · subst hf; subst ho'; subst hem0
+        refine ⟨l, dr.congr rfl rfl ?_ ?_ ?_ ?_ ?_ ?_ (by simp [List.filterMap_cons]) (by simp) rfl rfl rfl ?_⟩
+        all_goals (unfold Obj.wake; split <;> rfl)
+      · subst hf; subst ho'; subst hem0
+        rw [List.append_nil]
+        exact ⟨_, dr.deliverFinish x⟩
+      · subst hf; subst ho'; subst hem0
+        rw [List.append_nil]
+        exact ⟨_, (dr.deliverPush x d).2.2⟩
+      · subst hf
+        exfalso; apply hnot
+        have ha := (dr.deliverPush x d).1
+        refine ⟨ha, ?_⟩
+        cases hr : oA.rxOpen with
+        | true => rfl
+        | false => have := dr.hrx hr; rw [ha] at this; cases this
+      · subst ho'
+        refine ⟨l, dr.congr rfl rfl rfl rfl rfl rfl rfl rfl ?_ (by rw [List.filterMap_append, hemA]; simp) rfl rfl rfl rfl⟩
+        rcases hf with ⟨bt, port, host, hf⟩ | ⟨port, host, d, hf⟩ <;> subst hf <;> simp [toItem, List.filterMap_cons]
+
+/-- The receive loop processes one frame. -/
+theorem inv_recv {p : PS} (h : Inv p) (f : Frame) (rest : List Msg) (hba : p.ba = .frame f :: rest) :
+    Inv { p with a := (processFrame p.a f false).1, ba := rest } := by
+  have hgf : ∀ {Y : Nat → Prop}, Eff Y p.a (processFrame p.a f false).1 → GhostFresh (processFrame p.a f false).1 p.ga :=
+    fun s k hk => h.ghA k (Nat.le_trans s.len hk)
+  cases hfl : Msg.flow? (.frame f) with
+  | none =>
+    have s : Eff (fun _ => False) p.a (processFrame p.a f false).1 := by
+      cases f with
+      | datagram fid port host d => exact processFrame_dgram_eff _ _ _ _ _ _
+      | _ => simp [Msg.flow?] at hfl
+    exact inv_of_eff (g' := p.ga) (ba' := rest) h s (Or.inr ⟨_, hba, fun y hy => by rw [hfl] at hy; cases hy⟩)
+      (fun x _ => GhostAgree.refl x _ _) (hgf s) (fun x hx => absurd hx id)
+  | some x =>
+    have hid : f.id = x := (flow_eq hfl).symm
+    have s := processFrame_eff p.a f false h.sfA
+    rw [hid] at s
+    refine inv_of_eff (g' := p.ga) (ba' := rest) h s (Or.inr ⟨_, hba, fun y hy => by rw [hfl] at hy; cases hy; rfl⟩)
+      (fun x _ => GhostAgree.refl x _ _) (hgf s) ?_
+    intro x' hx'
+    subst hx'
+    have hhead : fl x' (pathBA p) = .frame f :: fl x' (rest ++ p.b.outq) := by
+      show fl x' (p.ba ++ p.b.outq) = _
+      rw [hba, List.cons_append, fl_cons]
+      simp [isFl, hfl]
+    rcases h.phase x' with r | r | r | r | r | r | r
+    · have := r.fba; rw [hhead] at this; cases this
+    · have := r.fba; rw [hhead] at this; cases this
+    · obtain ⟨port, host, hc⟩ := r.fab
+      rw [hhead] at hc
+      have hf : f = .connect x' p.b.opts.rwnd port host := by
+        have := (List.cons.inj hc).1; simpa [ev] using this
+      subst hf
+      exact phase_connect h x' _ port host rest hba r
+    · obtain ⟨j, oP, rest', l, _, _, _, h4, _⟩ := r.body
+      rw [hhead] at h4
+      have hf : f = .acknowledge x' p.b.opts.rwnd := by
+        have := (List.cons.inj h4).1; simpa [ev] using this
+      subst hf
+      exact phase_ack h x' _ rest hba r
+    · have := r.fab; rw [hhead] at this; cases this
+    · exact phase_linked_recv h f x' hid hfl rest hba r
+    · have hnc : (Msg.frame f).isConnect = false := r.nba _ (by rw [hhead]; simp)
+      exact dead_step (hd := [.frame f]) r s (by rw [hhead]; rfl)
+        (fun hn => processFrame_none_stays p.a f false x' hn hid hnc)
+
+end Penguin.Pair
